@@ -226,6 +226,8 @@ def h(
     --------
     numpy.histogramdd
     """
+    dtype = kwargs.pop("dtype", None)
+
     # pandas - guess axis names
     axis_names = extract_axis_names(data, axis_names=axis_names)
     check_nan = data is not None and not dropna
@@ -248,6 +250,7 @@ def h(
         array,
         binnings=bin_schemas,
         weights=weights,
+        dtype=dtype,
         axis_names=axis_names,
         name=name,
         title=title,
